@@ -1,4 +1,4 @@
-"""C01 -- rename preserves the program (structural clauses R01.1-R01.8)."""
+"""C01 -- rename preserves the program (structural clauses R01.1-R01.9)."""
 from __future__ import annotations
 
 import ast
@@ -17,7 +17,7 @@ EXPLANATION = (
     "coverage).  R01.3: the single-file shortcut of rename returns true only under 'holding scope is a function' and "
     "'the name is an assigned name'.  R01.4: inside call parentheses the offset evaluator never falls through from the keyword branch to generic "
     "scope evaluation, and outside any call it does (the keyword test is textual and also holds for tuple targets).  R01.5: ChangeCollector applies edits sorted by offset over the original text with an advancing "
-    "watermark and keeps the tail.  R01.6: a module rename appends '.py' exactly for files.  R01.7: name tables merged from several sources give the winner the language prescribes (last star import, first base class).  R01.8: an absolute module name is searched on the source folders and the python path before the importer's own folder.  Alpha-equivalence of the rewritten program is a runtime fact and is not decided."
+    "watermark and keeps the tail.  R01.6: a module rename appends '.py' exactly for files.  R01.7: name tables merged from several sources give the winner the language prescribes (last star import, first base class).  R01.8: an absolute module name is searched on the source folders and the python path before the importer's own folder.  R01.9 (=R15.7): target-name collectors never bind the object of an attribute/subscript target.  Alpha-equivalence of the rewritten program is a runtime fact and is not decided."
 )
 ASSUMPTIONS = ["scope classes are the subclasses of rope.base.pyscopes.Scope found in the working tree"]
 
@@ -91,6 +91,9 @@ def check(ctx, res) -> None:
 
     merge_precedence_rule(ctx, res, "R01.7")
     module_search_order_rule(ctx, res, "R01.8")
+    from .c15 import load_positions_rule
+
+    load_positions_rule(ctx, res, "R01.9")
 
 
 def _check_main(ctx, res) -> None:
